@@ -139,6 +139,36 @@ func wktPrintable(g orb.Geometry) bool { // polygons / multi-lines with a zero-v
 	return true
 }
 
+// c04Typed runs the seven typed parse functions on one text: accepted (1), incorrect geometry (2), another failure (0).
+func c04Typed(text string) []int {
+	typed := make([]int, 7)
+	res := func(err error) int {
+		if err == nil {
+			return 1
+		}
+		if err == wkt.ErrIncorrectGeometry {
+			return 2
+		}
+		return 0
+	}
+	var e1 error
+	_, e1 = wkt.UnmarshalPoint(text)
+	typed[0] = res(e1)
+	_, e1 = wkt.UnmarshalMultiPoint(text)
+	typed[1] = res(e1)
+	_, e1 = wkt.UnmarshalLineString(text)
+	typed[2] = res(e1)
+	_, e1 = wkt.UnmarshalMultiLineString(text)
+	typed[3] = res(e1)
+	_, e1 = wkt.UnmarshalPolygon(text)
+	typed[4] = res(e1)
+	_, e1 = wkt.UnmarshalMultiPolygon(text)
+	typed[5] = res(e1)
+	_, e1 = wkt.UnmarshalCollection(text)
+	typed[6] = res(e1)
+	return typed
+}
+
 var c04PrevBytes []byte
 var c04PrevText string
 
@@ -167,30 +197,7 @@ func c04Event(c *ctx, g orb.Geometry) (string, *wkbIntern, map[string]interface{
 			return
 		}
 		out, err = wkt.Unmarshal(text)
-		res := func(err error) int {
-			if err == nil {
-				return 1
-			}
-			if err == wkt.ErrIncorrectGeometry {
-				return 2
-			}
-			return 0
-		}
-		var e1 error
-		_, e1 = wkt.UnmarshalPoint(text)
-		typed[0] = res(e1)
-		_, e1 = wkt.UnmarshalMultiPoint(text)
-		typed[1] = res(e1)
-		_, e1 = wkt.UnmarshalLineString(text)
-		typed[2] = res(e1)
-		_, e1 = wkt.UnmarshalMultiLineString(text)
-		typed[3] = res(e1)
-		_, e1 = wkt.UnmarshalPolygon(text)
-		typed[4] = res(e1)
-		_, e1 = wkt.UnmarshalMultiPolygon(text)
-		typed[5] = res(e1)
-		_, e1 = wkt.UnmarshalCollection(text)
-		typed[6] = res(e1)
+		typed = c04Typed(text)
 	})
 	if site != "" {
 		c.emit(panicEvent("wkt.Marshal/Unmarshal", site, gm))
@@ -347,7 +354,8 @@ func init() {
 				setCurrent("wkt.Unmarshal(respelled)", t2)
 				var out orb.Geometry
 				var err error
-				if site := guard(func() { out, err = wkt.Unmarshal(t2) }); site != "" {
+				var typed []int
+				if site := guard(func() { out, err = wkt.Unmarshal(t2); typed = c04Typed(t2) }); site != "" {
 					c.emit(panicEvent("wkt.Unmarshal(respelled)", site, t2))
 					continue
 				}
@@ -355,6 +363,7 @@ func init() {
 					e["err"], e["errtext"], e["text"] = 1, err.Error(), t2
 				}
 				e["out"], _ = encGeom(out, in.fn())
+				e["typed"] = typed // the typed parse functions see the same re-spelled text
 				c.emit(e)
 			}
 		}
